@@ -48,8 +48,11 @@ def budget(tier):
 # ---------------------------------------------------------------------------------- generate
 def generate(seed, tier):
     rng = random.Random(seed)
-    if rng.random() < 0.4:
+    r0 = rng.random()
+    if r0 < 0.35:
         return gen_additivity(rng, tier)
+    if r0 < 0.45:
+        return gen_reread(rng, tier)
     n = rng.choice([1, 2, 2, 3, 3, 4])
     sess = [sl.gen_session(rng, tier, i) for i in range(n)]
     faults = []
@@ -74,7 +77,21 @@ def generate(seed, tier):
     return {"mode": "sessions", "sessions": sess, "faults": faults,
             "schedule": cm.gen_schedule(rng, n, nsteps), "io_seed": rng.randrange(1 << 30),
             "short_reads": rng.random() < 0.8, "listdir_seed": rng.randrange(1 << 30),
-            "hashseed2": rng.random() < 0.3}
+            "hashseed2": rng.random() < (0.8 if any(s["kind"] == "ptb" for s in sess) else 0.3)}
+
+
+def gen_reread(rng, tier):
+    """The content of a source file changes between two reads in one process: what is produced
+    the second time depends only on the new content (K5 with an environment step)."""
+    fmt = rng.choice(["export", "brackets", "discobrackets", "tigerxml", "export", "brackets"])
+    cont = fmt == "brackets"
+    tb1 = sl.gen_tb(rng, tier, continuous=cont, nsent=rng.choice([1, 2, 3, 5]))
+    tb2 = sl.gen_tb(rng, tier, continuous=cont, nsent=rng.choice([1, 2, 3]))
+    gz = fmt in ("export", "brackets", "discobrackets") and rng.random() < 0.5
+    return {"mode": "reread", "fmt": fmt, "tb1": tb1, "tb2": tb2, "gz": gz,
+            "cli": rng.random() < 0.4, "dest_fmt": rng.choice(["export", "terminals",
+                                                                "discobrackets"]),
+            "layout": rng.randrange(1 << 30), "io_seed": rng.randrange(1 << 30)}
 
 
 def gen_additivity(rng, tier):
@@ -164,9 +181,79 @@ def diff_obs(a, b, setfiles=False):
     return None
 
 
+def execute_reread(sc, sim):
+    st = cm.Stats()
+    st.declare("source_rewritten_between_reads", "gzip_source_opened")
+    fmt = sc["fmt"]
+    codec, ext = sl.SRC[fmt]
+    path = "/sim/w/r/in%s%s" % (ext, ".gz" if sc["gz"] else "")
+    c1 = cm.render_file({"tb": sc["tb1"], "codec": codec, "layout": sc["layout"], "enc": "utf-8",
+                         "gz": sc["gz"]})
+    c2 = cm.render_file({"tb": sc["tb2"], "codec": codec, "layout": sc["layout"] + 1,
+                         "enc": "utf-8", "gz": sc["gz"]})
+
+    def phase(n):
+        if sc["cli"]:
+            return [["cli", ["transform", path, "/sim/w/r/out%d" % n, "--src-format", fmt,
+                             "--dest-format", sc["dest_fmt"], "--src-opts", "quiet"]]]
+        return [["reader", "r%d" % n, fmt, path, "utf-8", {"quiet": True}],
+                ["loop", "r%d" % n, "t", []]]
+    ops = phase(1) + [["put", path, "second"]] + phase(1)
+    both = sim.run({"files": {path: c1}, "blobs": {"second": c2}, "dirs": ["/sim/w/r"],
+                    "io_seed": sc["io_seed"], "sessions": [{"id": "s", "ops": ops}]})
+    st.add_obs(both)
+    fresh = sim.run({"files": {path: c2}, "dirs": ["/sim/w/r"], "io_seed": sc["io_seed"],
+                     "sessions": [{"id": "s", "ops": phase(1)}]})
+    st.add_obs(fresh)
+    st.probe("source_rewritten_between_reads")
+    st.fault("history")
+    viols = []
+    ra = both["sessions"]["s"]
+    cut = [i for i, r in enumerate(ra) if r["op"] == "put"]
+    if cut:
+        second = ra[cut[0] + 1:]
+        a = ([(r["op"], "raised", r["exc"]) if "exc" in r else (r["op"], "ok", r["ok"])
+              for r in second],
+             dict((p, d) for p, d in both["files"].items() if p == "/sim/w/r/out1"))
+        b = ([(r["op"], "raised", r["exc"]) if "exc" in r else (r["op"], "ok", r["ok"])
+              for r in fresh["sessions"]["s"]],
+             dict((p, d) for p, d in fresh["files"].items() if p == "/sim/w/r/out1"))
+        # node ids in dumps are per-session counters: compare trees by content
+        a = (strip_ids(a[0]), a[1])
+        b = (strip_ids(b[0]), b[1])
+        st.check("reread_pairs")
+        if a != b:
+            viols.append(cm.viol("C18/reread/%s%s/stale-or-mixed-content"
+                                 % (fmt, "/gz" if sc["gz"] else ""), cli=sc["cli"],
+                                 second_read=len(a[0]), fresh=len(b[0])))
+    shape = ("reread", fmt, sc["gz"], sc["cli"], sc["dest_fmt"] if sc["cli"] else None,
+             len(sc["tb1"]), len(sc["tb2"]))
+    sample = {"mode": "reread", "fmt": fmt, "gz": sc["gz"], "cli": sc["cli"],
+              "first": cm.tb_summary(sc["tb1"]), "second": cm.tb_summary(sc["tb2"])}
+    return {"violations": viols, "stats": st.done(repr(shape), True, sample)}
+
+
+def strip_ids(recs):
+    from .. import treeview
+    out = []
+    for r in recs:
+        if r[1] == "ok" and isinstance(r[2], dict) and "nodes" in r[2]:
+            d = r[2]
+            if treeview.wellformed(d):
+                out.append((r[0], "ok", "ILL-FORMED"))
+            else:
+                sent = treeview.to_sentence(d)
+                out.append((r[0], "ok", repr(model.canon(sent))))
+        else:
+            out.append(r)
+    return out
+
+
 def execute(sc, sim):
     if sc["mode"] == "additivity":
         return execute_additivity(sc, sim)
+    if sc["mode"] == "reread":
+        return execute_reread(sc, sim)
     st = cm.Stats()
     st.declare("three_plus_sessions_interleaved", "two_readers_same_format_alive",
                "history_length_3plus", "history_contains_failed_call", "cancellation_mid_file",
@@ -521,6 +608,22 @@ def cmp_seq(exp, got, dfmt, sc, tag, what, ignore_sid=None):
 
 # ---------------------------------------------------------------------------------- shrink
 def shrink_candidates(sc):
+    if sc["mode"] == "reread":
+        for key in ("tb1", "tb2"):
+            for tb in model.shrink_treebank(sc[key]):
+                if tb:
+                    c = model.clone(sc)
+                    c[key] = tb
+                    yield c
+        if sc["gz"]:
+            c = model.clone(sc)
+            c["gz"] = False
+            yield c
+        if sc["cli"]:
+            c = model.clone(sc)
+            c["cli"] = False
+            yield c
+        return
     if sc["mode"] == "additivity":
         for key in ("A", "B"):
             for tb in model.shrink_treebank(sc[key]):
